@@ -37,7 +37,7 @@ ASSUMPTIONS = [
 ]
 DEDUPE = False
 FRESH_WORKER_PER_BLOCK = True
-CAPS = "scenario refine-many (132 tasks): only the first 3 completion schedules with 2 workers (default order and two deviations) plus the fresh-interpreter and real-pool passes; every other scenario: all schedules"
+CAPS = "scenario refine-17 (17 tasks): only the first 3 completion schedules for each of 2, 3, 4, auto workers; scenario refine-many (132 tasks): only the first 3 completion schedules with 2 workers (default order and two deviations) plus the fresh-interpreter and real-pool passes; every other scenario: all schedules"
 _REF = {}
 _PERSIST = {}  # inputs a caller keeps alive across analyses (per process)
 
@@ -71,6 +71,10 @@ def scenarios(tier):
     out["refine-fit"] = {"api": "refine", "drops": DROPS5[:n], "kwargs": {"vmin": None, "vmax": None, "adjust_values": True}, "shift": 0.25, "affine": [2.0, -0.5]}
     out["refine-sph"] = {"api": "refine", "drops": DROPS5[:n][::-1], "kwargs": {}, "shift": 0.2, "cls": "spherical"}
     out["refine-nowidth"] = {"api": "refine", "drops": DROPS5[1:n], "kwargs": {}, "shift": 0.3, "cls": "diffuse-nowidth"}
+    for form in ("generator", "iter", "tuple", "emulsion", "map"):
+        out["refine-form-" + form] = {"api": "refine", "drops": DROPS5[:3], "kwargs": {}, "shift": 0.35, "form": form, "bulk": form not in ("generator",), "ks": [2, 3, 4, "auto"], "cap": None}
+    # more candidates than a small chunk / batch size, a number no worker count divides
+    out["refine-17"] = {"api": "refine", "many": [17, 1], "kwargs": {"least_squares_params": {"max_nfev": 4}}, "shift": 0.2, "bulk": True, "drops": [], "ks": [2, 3, 4, "auto"]}
     out["refine-none"] = {"api": "refine", "drops": [], "kwargs": {}, "shift": 0.0, "field_drops": DROPS5[:2]}
     out["refine-lsq"] = {"api": "refine", "drops": DROPS5[:n], "kwargs": {"vmin": None, "vmax": None, "adjust_values": True, "least_squares_params": {"max_nfev": 400}},
                          "shift": 0.3, "contrast": [1.0, 0.6, 1.5, 0.8, 1.2]}
@@ -210,7 +214,19 @@ def call(sc, k):
         return {"droplets": [canon_d(d) for d in res]}
     inp = build(sc)
     if sc["api"] == "refine":
-        res = ia.refine_droplets(inp[0], inp[1], num_processes=k, **sc["kwargs"])
+        cands = inp[1]
+        form = sc.get("form")  # the candidates are documented as an iterable: every container form must give the serial result
+        if form == "generator":
+            cands = (d for d in cands)
+        elif form == "iter":
+            cands = iter(cands)
+        elif form == "tuple":
+            cands = tuple(cands)
+        elif form == "emulsion":
+            cands = droplets.Emulsion(cands)
+        elif form == "map":
+            cands = map(lambda d: d, cands)
+        res = ia.refine_droplets(inp[0], cands, num_processes=k, **sc["kwargs"])
         return {"droplets": [canon_d(d) for d in res]}
     if sc["api"] == "locate":
         res = droplets.locate_droplets(inp[0], num_processes=k, **sc["kwargs"])
@@ -359,7 +375,8 @@ def blocks(tier, seed):
     scs = scenarios(tier)
     for name, sc in scs.items():
         if sc.get("bulk"):
-            out.append({"part": "schedules", "scenario": name, "k": 2, "tier": tier, "cap": 3})
+            for k in sc.get("ks", [2]):
+                out.append({"part": "schedules", "scenario": name, "k": k, "tier": tier, "cap": sc.get("cap", 3)})
             continue
         for k in ks_for(ntasks(sc)):
             out.append({"part": "schedules", "scenario": name, "k": k, "tier": tier})
